@@ -31,6 +31,21 @@ enum Dir {
     Both,
 }
 type Pat = (Option<i64>, Option<i64>, Option<i64>);
+
+/// Entry point through which a statement or a scan-based read is issued.  Not part of the model term:
+/// every one of these entry points hands the same (viewing epoch, transaction) pair to the planner, and
+/// the model has one `Read` / one write op per kind.  `Db*` = `GrafeoDB::execute*` (a temporary session),
+/// used only when the acting session has no open transaction.
+#[derive(Clone, Copy, Debug, PartialEq)]
+enum Via {
+    Gql,
+    Cypher,
+    Params,
+    Gremlin,
+    Db,
+    DbCypher,
+    DbParams,
+}
 type Tr = (i64, i64, i64);
 
 #[derive(Clone, Debug, PartialEq)]
@@ -51,6 +66,8 @@ enum Kind {
     DbCounts,
     StoreLabel(i64),
     StoreProp(i64, i64),
+    /// `GrafeoDB::execute_cypher_with_params("MATCH (n:L) RETURN n")`: planned with a private transaction manager
+    FreshLabelScan(i64),
 }
 
 #[derive(Clone, Debug, PartialEq)]
@@ -136,6 +153,7 @@ impl Kind {
             Kind::DbCounts => "DbCounts".into(),
             Kind::StoreLabel(l) => format!("(StoreLabel {})", z(*l)),
             Kind::StoreProp(n, k) => format!("(StoreProp {} {})", z(*n), z(*k)),
+            Kind::FreshLabelScan(l) => format!("(FreshLabelScan {})", z(*l)),
         }
     }
 }
@@ -313,8 +331,23 @@ impl Impl {
         if s == OBSERVER { self.sessions.len() - 1 } else { s as usize }
     }
 
-    fn gql_int_rows(&self, s: i64, q: &str, ncol: usize) -> Result<Vec<Vec<Value>>, String> {
-        let r = self.sessions[self.si(s)].execute(q).map_err(|e| format!("{}: {}", q, e))?;
+    /// runs a GQL / Cypher statement through the chosen entry point
+    fn run_q(&self, s: i64, via: Via, q: &str) -> Result<grafeo_engine::database::QueryResult, String> {
+        let sess = &self.sessions[self.si(s)];
+        let in_tx = self.tx[self.si(s)].is_some();
+        let none = std::collections::HashMap::new;
+        let r = match via {
+            Via::Cypher => sess.execute_cypher(q),
+            Via::Params => sess.execute_with_params(q, none()),
+            Via::Db if !in_tx => self.db.execute(q),
+            Via::DbCypher if !in_tx => self.db.execute_cypher(q),
+            Via::DbParams if !in_tx => self.db.execute_with_params(q, none()),
+            _ => sess.execute(q),
+        };
+        r.map_err(|e| format!("{} [{:?}]: {}", q, via, e))
+    }
+    fn gql_int_rows(&self, s: i64, via: Via, q: &str, ncol: usize) -> Result<Vec<Vec<Value>>, String> {
+        let r = self.run_q(s, via, q)?;
         for row in &r.rows {
             if row.len() != ncol {
                 return Err(format!("{}: row of width {}", q, row.len()));
@@ -329,37 +362,47 @@ impl Impl {
         }
     }
 
-    fn read(&self, s: i64, k: &Kind) -> Result<O, String> {
+    fn read(&self, s: i64, k: &Kind, via: Via) -> Result<O, String> {
         let sess = &self.sessions[self.si(s)];
         Ok(match k {
             Kind::LabelScan(l) => {
-                let rows = self.gql_int_rows(s, &format!("MATCH (n:{}) RETURN n", lname(*l)), 1)?;
+                let rows = self.gql_int_rows(s, via, &format!("MATCH (n:{}) RETURN n", lname(*l)), 1)?;
                 let mut ids = rows.iter().map(|r| Self::int(&r[0])).collect::<Result<Vec<_>, _>>()?;
                 ids.sort();
                 O::Ids(ids)
             }
             Kind::AllScan => {
-                let rows = self.gql_int_rows(s, "MATCH (n) RETURN n", 1)?;
+                let rows = if via == Via::Gremlin {
+                    let r = self.sessions[self.si(s)].execute_gremlin("g.V()").map_err(|e| format!("g.V(): {}", e))?;
+                    r.rows
+                } else {
+                    self.gql_int_rows(s, via, "MATCH (n) RETURN n", 1)?
+                };
                 let mut ids = rows.iter().map(|r| Self::int(&r[0])).collect::<Result<Vec<_>, _>>()?;
                 ids.sort();
                 O::Ids(ids)
             }
             Kind::CountAll => {
-                let rows = self.gql_int_rows(s, "MATCH (n) RETURN count(n)", 1)?;
+                let rows = if via == Via::Gremlin {
+                    let r = self.sessions[self.si(s)].execute_gremlin("g.V().count()").map_err(|e| format!("g.V().count(): {}", e))?;
+                    r.rows
+                } else {
+                    self.gql_int_rows(s, via, "MATCH (n) RETURN count(n)", 1)?
+                };
                 if rows.len() != 1 {
                     return Err(format!("count returned {} rows", rows.len()));
                 }
                 O::Count(Self::int(&rows[0][0])?)
             }
             Kind::CountLabel(l) => {
-                let rows = self.gql_int_rows(s, &format!("MATCH (n:{}) RETURN count(n)", lname(*l)), 1)?;
+                let rows = self.gql_int_rows(s, via, &format!("MATCH (n:{}) RETURN count(n)", lname(*l)), 1)?;
                 if rows.len() != 1 {
                     return Err(format!("count returned {} rows", rows.len()));
                 }
                 O::Count(Self::int(&rows[0][0])?)
             }
             Kind::ProjProp(l, key) => {
-                let rows = self.gql_int_rows(s, &format!("MATCH (n:{}) RETURN n, n.{}", lname(*l), kname(*key)), 2)?;
+                let rows = self.gql_int_rows(s, via, &format!("MATCH (n:{}) RETURN n, n.{}", lname(*l), kname(*key)), 2)?;
                 let mut v = Vec::new();
                 for r in &rows {
                     v.push((Self::int(&r[0])?, val_of(&r[1])?));
@@ -377,7 +420,7 @@ impl Impl {
                     Dir::In => format!("{}<-{}-(b)", sel_pat("a", m), rel),
                     Dir::Both => format!("{}-{}-(b)", sel_pat("a", m), rel),
                 };
-                let rows = self.gql_int_rows(s, &format!("MATCH {} RETURN a, r, b", pat), 3)?;
+                let rows = self.gql_int_rows(s, via, &format!("MATCH {} RETURN a, r, b", pat), 3)?;
                 let mut v = Vec::new();
                 for r in &rows {
                     v.push((Self::int(&r[0])?, Self::int(&r[1])?, Self::int(&r[2])?));
@@ -443,15 +486,31 @@ impl Impl {
                     return Err("fully bound pattern".into());
                 }
                 let sel: Vec<String> = vars.iter().map(|c| format!("?{}", c)).collect();
-                let q = format!("SELECT {} WHERE {{ {} {} {} }}", sel.join(" "), ts, tp, to);
-                let r = sess.execute_sparql(&q).map_err(|e| format!("{}: {}", q, e))?;
+                let star = matches!(via, Via::Params | Via::DbParams);
+                let q = format!("SELECT {} WHERE {{ {} {} {} }}", if star { "*".to_string() } else { sel.join(" ") }, ts, tp, to);
+                let in_tx = self.tx[self.si(s)].is_some();
+                let r = if matches!(via, Via::Db | Via::DbCypher | Via::DbParams) && !in_tx {
+                    self.db.execute_sparql(&q)
+                } else {
+                    sess.execute_sparql(&q)
+                }
+                .map_err(|e| format!("{}: {}", q, e))?;
+                // columns are named after the variables (whatever their order)
+                let cols: Vec<char> = r.columns.iter().map(|c| c.chars().next().unwrap_or('?')).collect();
+                let mut sorted_cols = cols.clone();
+                sorted_cols.sort();
+                let mut sorted_vars = vars.clone();
+                sorted_vars.sort();
+                if sorted_cols != sorted_vars {
+                    return Err(format!("{}: columns {:?}", q, r.columns));
+                }
                 let mut out = Vec::new();
                 for row in &r.rows {
-                    if row.len() != vars.len() {
+                    if row.len() != cols.len() {
                         return Err(format!("{}: row width {}", q, row.len()));
                     }
                     let mut t = (p.0, p.1, p.2);
-                    for (c, v) in vars.iter().zip(row.iter()) {
+                    for (c, v) in cols.iter().zip(row.iter()) {
                         let sv = match v {
                             Value::String(x) => x.to_string(),
                             o => return Err(format!("sparql value {:?}", o)),
@@ -499,17 +558,40 @@ impl Impl {
                     Some(v) => O::Val(Some(val_of(&v)?)),
                 }
             }
+            Kind::FreshLabelScan(l) => {
+                let q = format!("MATCH (n:{}) RETURN n", lname(*l));
+                let r = self
+                    .db
+                    .execute_cypher_with_params(&q, std::collections::HashMap::new())
+                    .map_err(|e| format!("{} [db cypher params]: {}", q, e))?;
+                let mut ids = Vec::new();
+                for row in &r.rows {
+                    if row.len() != 1 {
+                        return Err(format!("{}: row of width {}", q, row.len()));
+                    }
+                    ids.push(Self::int(&row[0])?);
+                }
+                ids.sort();
+                O::Ids(ids)
+            }
         })
     }
 
-    fn stmt(&self, s: i64, q: &str) -> Result<O, String> {
-        self.sessions[self.si(s)].execute(q).map(|_| O::Unit).map_err(|e| format!("{}: {}", q, e))
+    fn stmt(&self, s: i64, via: Via, q: &str) -> Result<O, String> {
+        self.run_q(s, via, q).map(|_| O::Unit)
     }
-    fn sparql(&self, s: i64, q: &str) -> Result<O, String> {
-        self.sessions[self.si(s)].execute_sparql(q).map(|_| O::Unit).map_err(|e| format!("{}: {}", q, e))
+    fn sparql(&self, s: i64, via: Via, q: &str) -> Result<O, String> {
+        let in_tx = self.tx[self.si(s)].is_some();
+        if matches!(via, Via::Db | Via::DbCypher | Via::DbParams) && !in_tx {
+            self.db.execute_sparql(q)
+        } else {
+            self.sessions[self.si(s)].execute_sparql(q)
+        }
+        .map(|_| O::Unit)
+        .map_err(|e| format!("{}: {}", q, e))
     }
 
-    fn exec(&mut self, op: &Op) -> Result<O, String> {
+    fn exec(&mut self, op: &Op, via: Via) -> Result<O, String> {
         use grafeo_common::utils::error::{Error, TransactionError};
         let tx_result = |r: grafeo_common::utils::error::Result<()>| -> Result<O, String> {
             match r {
@@ -557,8 +639,9 @@ impl Impl {
                         let v: Vec<String> = ps.iter().map(|(k, v)| format!("{}: {}", kname(*k), vlit(v))).collect();
                         format!(" {{{}}}", v.join(", "))
                     };
-                    let q = format!("INSERT ({}{})", labels, props);
-                    let r = self.sessions[self.si(*s)].execute(&q).map_err(|e| format!("{}: {}", q, e))?;
+                    let cy = matches!(via, Via::Cypher | Via::DbCypher);
+                    let q = if cy { format!("CREATE (n{}{}) RETURN id(n)", labels, props) } else { format!("INSERT ({}{})", labels, props) };
+                    let r = self.run_q(*s, via, &q)?;
                     if r.rows.len() != 1 || r.rows[0].len() != 1 {
                         return Err(format!("{}: unexpected shape", q));
                     }
@@ -578,6 +661,7 @@ impl Impl {
             }
             Op::DeleteNode(s, m, id, detach) => self.stmt(
                 *s,
+                via,
                 &format!("MATCH {} WHERE id(n) = {} {}DELETE n", sel_pat("n", m), id, if *detach { "DETACH " } else { "" }),
             ),
             Op::CreateEdge(s, a, b, t) => {
@@ -593,30 +677,42 @@ impl Impl {
                     b,
                     tname(*t)
                 );
-                let rows = self.gql_int_rows(*s, &q, 1)?;
+                let v = match via {
+                    Via::Cypher => Via::Gql,
+                    Via::DbCypher => Via::Db,
+                    o => o,
+                };
+                let rows = self.gql_int_rows(*s, v, &q, 1)?;
                 let mut ids = rows.iter().map(|r| Self::int(&r[0])).collect::<Result<Vec<_>, _>>()?;
                 ids.sort();
                 Ok(O::Ids(ids))
             }
             Op::DeleteEdge(e) => Ok(O::Bool(self.db.delete_edge(EdgeId::new(*e as u64)))),
             Op::SetProp(s, m, id, k, v) => {
-                self.stmt(*s, &format!("MATCH {} WHERE id(n) = {} SET n.{} = {}", sel_pat("n", m), id, kname(*k), vlit(v)))
+                self.stmt(*s, via, &format!("MATCH {} WHERE id(n) = {} SET n.{} = {}", sel_pat("n", m), id, kname(*k), vlit(v)))
             }
             Op::RemoveProp(s, m, id, k) => {
-                self.stmt(*s, &format!("MATCH {} WHERE id(n) = {} REMOVE n.{}", sel_pat("n", m), id, kname(*k)))
+                self.stmt(*s, via, &format!("MATCH {} WHERE id(n) = {} REMOVE n.{}", sel_pat("n", m), id, kname(*k)))
             }
             Op::AddLabel(s, m, id, l) => {
-                self.stmt(*s, &format!("MATCH {} WHERE id(n) = {} SET n:{}", sel_pat("n", m), id, lname(*l)))
+                let v = match via {
+                    Via::Cypher => Via::Gql,
+                    Via::DbCypher => Via::Db,
+                    o => o,
+                };
+                self.stmt(*s, v, &format!("MATCH {} WHERE id(n) = {} SET n:{}", sel_pat("n", m), id, lname(*l)))
             }
             Op::RemoveLabel(s, m, id, l) => {
-                self.stmt(*s, &format!("MATCH {} WHERE id(n) = {} REMOVE n:{}", sel_pat("n", m), id, lname(*l)))
+                self.stmt(*s, via, &format!("MATCH {} WHERE id(n) = {} REMOVE n:{}", sel_pat("n", m), id, lname(*l)))
             }
             Op::InsertTriple(s, t) => self.sparql(
                 *s,
+                via,
                 &format!("INSERT DATA {{ <{}> <{}> <{}> }}", iri('s', t.0), iri('p', t.1), iri('o', t.2)),
             ),
             Op::DeleteTriple(s, t) => self.sparql(
                 *s,
+                via,
                 &format!("DELETE DATA {{ <{}> <{}> <{}> }}", iri('s', t.0), iri('p', t.1), iri('o', t.2)),
             ),
             Op::DbDeleteNode(n) => Ok(O::Bool(self.db.delete_node(NodeId::new(*n as u64)))),
@@ -627,7 +723,7 @@ impl Impl {
             Op::DbRemoveProp(n, k) => Ok(O::Bool(self.db.remove_node_property(NodeId::new(*n as u64), &kname(*k)))),
             Op::DbAddLabel(n, l) => Ok(O::Bool(self.db.add_node_label(NodeId::new(*n as u64), &lname(*l)))),
             Op::DbRemoveLabel(n, l) => Ok(O::Bool(self.db.remove_node_label(NodeId::new(*n as u64), &lname(*l)))),
-            Op::Read(s, k) => self.read(*s, k),
+            Op::Read(s, k) => self.read(*s, k, via),
         }
     }
 }
@@ -665,6 +761,8 @@ struct Gen<'a> {
     /// read list of the previous dump of the history (0 for the first dump)
     dumps: Vec<(usize, usize, usize)>,
     last_dump_kinds: Vec<Kind>,
+    /// entry point used for each op (parallel to `ops`)
+    vias: Vec<Via>,
 }
 
 impl<'a> Gen<'a> {
@@ -678,16 +776,46 @@ impl<'a> Gen<'a> {
             errs: vec![],
             dumps: vec![],
             last_dump_kinds: vec![],
+            vias: vec![],
+        }
+    }
+
+    /// the entry point for an op: GQL through the session most of the time, otherwise Cypher, the
+    /// parameterised entry point (QueryProcessor), Gremlin (unlabelled scan / count only) or the
+    /// database-level convenience calls (a temporary session; only outside a transaction)
+    fn pick_via(&mut self, op: &Op) -> Via {
+        use Via::*;
+        let lpg = [Gql, Gql, Gql, Gql, Cypher, Cypher, Params, Db, DbCypher, DbParams];
+        let lpg_all = [Gql, Gql, Gql, Gql, Cypher, Cypher, Params, Gremlin, Gremlin, Db, DbCypher, DbParams];
+        let rdf = [Gql, Gql, Gql, Params, Db, DbParams];
+        match op {
+            Op::Read(_, k) => match k {
+                Kind::AllScan | Kind::CountAll => *self.rng.pick(&lpg_all),
+                Kind::LabelScan(_) | Kind::CountLabel(_) | Kind::ProjProp(..) | Kind::Expand(..) => *self.rng.pick(&lpg),
+                Kind::TripleQ(_) => *self.rng.pick(&rdf),
+                _ => Gql,
+            },
+            Op::CreateNode(_, _, _, true)
+            | Op::DeleteNode(..)
+            | Op::CreateEdgeQ(..)
+            | Op::SetProp(..)
+            | Op::RemoveProp(..)
+            | Op::AddLabel(..)
+            | Op::RemoveLabel(..) => *self.rng.pick(&lpg),
+            Op::InsertTriple(..) | Op::DeleteTriple(..) => *self.rng.pick(&rdf),
+            _ => Gql,
         }
     }
 
     /// runs one op against the implementation and records it
     fn push(&mut self, op: Op) -> O {
+        let via = self.pick_via(&op);
+        self.vias.push(via);
         let im = std::panic::AssertUnwindSafe(&mut self.im);
         let opc = op.clone();
         let r = catch(move || {
             let mut im = im;
-            im.0.exec(&opc)
+            im.0.exec(&opc, via)
         });
         let o = match r {
             Ok(Ok(o)) => o,
@@ -785,7 +913,8 @@ impl<'a> Gen<'a> {
     }
 
     fn read_kind(&mut self) -> Kind {
-        match self.rng.below(20) {
+        match self.rng.below(21) {
+            20 => Kind::FreshLabelScan(self.label()),
             0 | 1 | 2 => Kind::LabelScan(self.label()),
             3 | 4 => Kind::AllScan,
             5 => Kind::CountAll,
@@ -895,6 +1024,7 @@ impl<'a> Gen<'a> {
             fresh.push(Kind::Degree(n));
             for k in 0..NKEYS {
                 fresh.push(Kind::StoreProp(n, k));
+                fresh.push(Kind::GetProp(n, k));
             }
         }
         for e in 0..self.sh.ne {
@@ -903,6 +1033,8 @@ impl<'a> Gen<'a> {
         for l in 0..NLABELS {
             fresh.push(Kind::LabelScan(l));
             fresh.push(Kind::StoreLabel(l));
+            fresh.push(Kind::CountLabel(l));
+            fresh.push(Kind::FreshLabelScan(l));
             for k in 0..NKEYS {
                 fresh.push(Kind::ProjProp(l, k));
             }
@@ -910,6 +1042,8 @@ impl<'a> Gen<'a> {
         fresh.push(Kind::AllScan);
         fresh.push(Kind::CountAll);
         fresh.push(Kind::Expand(Sel::Any, Dir::Out, None));
+        fresh.push(Kind::Expand(Sel::Any, Dir::In, None));
+        fresh.push(Kind::Expand(Sel::Any, Dir::Both, None));
         for l in 0..NLABELS {
             fresh.push(Kind::Expand(Sel::Label(l), Dir::Out, None));
         }
@@ -917,6 +1051,7 @@ impl<'a> Gen<'a> {
             fresh.push(Kind::Expand(Sel::Any, Dir::Out, Some(t)));
         }
         fresh.push(Kind::TripleQ((None, None, None)));
+        fresh.push(Kind::TripleApi((None, None, None)));
         fresh.push(Kind::DbCounts);
         for k in fresh {
             if !kinds.contains(&k) {
@@ -1031,6 +1166,65 @@ fn gen_epoch(g: &mut Gen) {
             let kind = g.read_kind();
             g.push(Op::Read(s2, kind));
         }
+    }
+}
+
+/// a transaction reads its own writes through every path (creations, in-place changes, its own deletes),
+/// another session reads in between; at epoch 0 or after some commits
+fn gen_own(g: &mut Gen) {
+    let (n, e, t) = (g.rng.below(3) as i64, g.rng.below(2) as i64, g.rng.below(2) as i64);
+    g.fixture(n, e, t);
+    for _ in 0..g.rng.below(2) {
+        g.push(Op::Begin(2));
+        g.push(Op::Commit(2));
+    }
+    let w = 0;
+    g.push(Op::Begin(w));
+    let k = 2 + g.rng.below(5);
+    for _ in 0..k {
+        let op = match g.rng.below(10) {
+            0 | 1 | 2 => {
+                if g.sh.nn >= MAXNODES {
+                    Op::InsertTriple(w, g.triple())
+                } else {
+                    g.create_node(w)
+                }
+            }
+            3 | 4 => {
+                if g.sh.ne >= MAXEDGES || g.sh.nn == 0 {
+                    Op::DeleteTriple(w, g.triple())
+                } else {
+                    Op::CreateEdge(w, g.node_existing(), g.node_existing(), g.ty())
+                }
+            }
+            // its own (most recent) node: delete / change
+            5 => Op::DeleteNode(w, Sel::Any, (g.sh.nn - 1).max(0), g.rng.chance(1, 2)),
+            6 => Op::DeleteNode(w, g.sel(), (g.sh.nn - 1).max(0), false),
+            7 => Op::SetProp(w, g.sel(), (g.sh.nn - 1).max(0), g.key(), g.value()),
+            8 => Op::AddLabel(w, g.sel(), (g.sh.nn - 1).max(0), g.label()),
+            _ => Op::InsertTriple(w, g.triple()),
+        };
+        g.push(op);
+        for _ in 0..(1 + g.rng.below(2)) {
+            let kind = match g.rng.below(8) {
+                0 => Kind::GetNode((g.sh.nn - 1).max(0)),
+                1 => Kind::GetEdge((g.sh.ne - 1).max(0)),
+                2 => Kind::LabelScan(g.label()),
+                3 => Kind::Expand(g.sel(), *g.rng.pick(&[Dir::Out, Dir::In, Dir::Both]), None),
+                _ => g.read_kind(),
+            };
+            g.push(Op::Read(w, kind));
+        }
+        if g.rng.chance(1, 3) {
+            let kind = g.read_kind();
+            g.push(Op::Read(1, kind));
+        }
+    }
+    let c = g.rng.chance(1, 2);
+    g.push(if c { Op::Commit(w) } else { Op::Rollback(w) });
+    for _ in 0..2 {
+        let kind = g.read_kind();
+        g.push(Op::Read(w, kind));
     }
 }
 
@@ -1185,6 +1379,13 @@ fn corpus(prop: &str) -> Vec<(&'static str, Vec<Op>, bool)> {
         v.push(("corpus:K5-rdf", vec![InsertTriple(OBSERVER, (0, 0, 0)), Begin(0), InsertTriple(0, (1, 1, 1)), Read(0, TripleQ((None, None, None))), InsertTriple(0, (0, 0, 0)), Read(0, TripleApi((None, None, None))), DeleteTriple(0, (1, 1, 1)), Read(0, TripleApi((None, None, None))), Read(1, TripleQ((None, None, None))), Commit(0), Read(1, TripleQ((None, None, None)))], false));
         // K6 neighbours ignore visibility
         v.push(("corpus:K6-neigh", vec![CreateNode(OBSERVER, vec![], vec![], false), CreateNode(OBSERVER, vec![], vec![], false), Begin(0), CreateEdge(0, 0, 1, 0), Read(1, Neigh(0, Dir::Out)), Read(1, Degree(0)), Rollback(0), Read(1, Neigh(0, Dir::Out)), Read(1, GetEdge(0))], false));
+        // K7 GrafeoDB::execute_cypher_with_params plans with a private transaction manager (epoch 0)
+        v.push(("corpus:K7-fresh-manager", vec![Begin(0), Commit(0), Begin(0), CreateNode(0, vec![0], vec![(0, Some(1))], true), Commit(0), Read(OBSERVER, LabelScan(0)), Read(OBSERVER, FreshLabelScan(0))], false));
+        // expands: clean (reader's snapshot precedes the writer), and one deviation per class (1, 3, 4)
+        v.push(("corpus:clean-expand", vec![CreateNode(OBSERVER, vec![0], vec![], false), CreateNode(OBSERVER, vec![1], vec![], false), CreateEdge(OBSERVER, 0, 1, 0), CreateEdge(OBSERVER, 1, 1, 1), Begin(1), Begin(2), Commit(2), Begin(0), CreateEdge(0, 1, 0, 1), Read(0, Expand(Sel::Any, Dir::Both, None)), Read(1, Expand(Sel::Label(0), Dir::Out, Some(0))), Read(1, Expand(Sel::Any, Dir::In, None)), Read(1, Expand(Sel::Any, Dir::Both, Some(1))), Commit(0), Read(1, Expand(Sel::Any, Dir::Out, None))], false));
+        v.push(("corpus:expand-K1", vec![CreateNode(OBSERVER, vec![], vec![], false), CreateNode(OBSERVER, vec![], vec![], false), Begin(0), CreateEdge(0, 0, 1, 0), Read(1, Expand(Sel::Any, Dir::Out, None))], false));
+        v.push(("corpus:expand-K3", vec![CreateNode(OBSERVER, vec![], vec![], false), CreateNode(OBSERVER, vec![], vec![], false), CreateEdge(OBSERVER, 0, 1, 0), Begin(0), DeleteNode(0, Sel::Any, 1, true), Read(1, Expand(Sel::Any, Dir::Out, None))], false));
+        v.push(("corpus:expand-K4", vec![CreateNode(OBSERVER, vec![0], vec![], false), Begin(0), Commit(0), CreateNode(1, vec![0], vec![], false), CreateEdge(1, 0, 1, 0), Read(1, Expand(Sel::Label(0), Dir::Out, Some(0)))], false));
         // outside every class: reader's snapshot precedes the writer's begin
         v.push(("corpus:clean-later-starter", vec![CreateNode(OBSERVER, vec![0], vec![], false), Begin(1), Begin(2), Commit(2), Begin(0), CreateNode(0, vec![0], vec![(0, Some(3))], true), Read(1, LabelScan(0)), Read(1, GetNode(1)), Read(1, AllScan), Commit(0), Read(1, LabelScan(0)), Commit(1), Read(1, LabelScan(0))], false));
         // error paths of the transaction state machine
@@ -1295,13 +1496,25 @@ fn emit(out: &mut Out, name: &str, g: Gen, prop: &str, show: bool) {
         }
     }
     tags.extend(kinds);
-    let human: Vec<String> = g.ops.iter().map(|o| format!("{:?}", o)).collect();
+    let human: Vec<String> = g
+        .ops
+        .iter()
+        .zip(g.vias.iter())
+        .map(|(o, v)| if *v == Via::Gql { format!("{:?}", o) } else { format!("{:?}@{:?}", o, v) })
+        .collect();
+    let mut vias = std::collections::BTreeSet::new();
+    for v in &g.vias {
+        if *v != Via::Gql {
+            vias.insert(format!("via:{:?}", v));
+        }
+    }
+    tags.extend(vias);
     let dumps_s = coq::list(g.dumps.iter().map(|(a, b, c)| format!("({}, {}, {})", z(*a as i64), z(*b as i64), z(*c as i64))));
     let nt = if prop == "c01" { nontrivial_c01(&g.ops) } else { nontrivial_c02(&g.ops, &g.dumps) };
     if show {
         eprintln!("--- {} ({} ops, nt={})", name, g.ops.len(), nt);
-        for (o, r) in g.ops.iter().zip(g.outs.iter()) {
-            eprintln!("    {:?}  =>  {:?}", o, r);
+        for ((o, r), v) in g.ops.iter().zip(g.outs.iter()).zip(g.vias.iter()) {
+            eprintln!("    {:?} @{:?}  =>  {:?}", o, v, r);
         }
     }
     let c = Case {
@@ -1360,9 +1573,13 @@ fn main() {
         let name;
         if prop == "c01" {
             match i % 10 {
-                0 | 1 | 2 => {
+                0 | 1 => {
                     name = "overlap";
                     gen_overlap(&mut g);
+                }
+                2 => {
+                    name = "own";
+                    gen_own(&mut g);
                 }
                 3 | 4 => {
                     name = "epoch";
